@@ -314,6 +314,7 @@ def run(prog, chk):
     stage_confinement_rule(prog, chk)
     bang_rule(prog, chk)
     case_status_rule(prog, chk)
+    for_in_empty_list_rule(prog, chk)
 
 
 WAIT_P = "brush_core::interp::wait_for_pipeline_processes_and_update_status"
@@ -491,3 +492,42 @@ def case_status_rule(prog, chk):
         chk.fail("R2.7", CASE_EXEC, "case-item-keeps-earlier-status",
                  "a selected case item can reach its post-action dispatch without assigning the result (path %s): an item with no commands keeps the status of the "
                  "item that fell through into it — `case a in a) false ;& b) ;; esac; echo $?` prints 1 (bash 0)" % (p[:8],))
+
+
+def for_in_empty_list_rule(prog, chk):
+    """R2.8: `for x in; do …` (an `in` clause with an empty word list) runs its body zero times; only a *missing* `in` clause iterates
+    over the positional parameters. In the grammar the alternative of for_clause that contains the `in` keyword must build
+    `values: Some(…)`; the alternative without it builds `values: None`."""
+    import os
+    import re
+    import peg
+    chk.rule("R2.8", "grammar: the for_clause alternative with an `in` clause yields values: Some(list) even when the list is empty; only the "
+                     "alternative without `in` yields None (= iterate over \"$@\")")
+    repo = os.environ.get("BRUSH_REPO", "/repo")
+    g = list(peg.load(os.path.join(repo, "brush-parser/src/parser/peg.rs")).values())[0]
+    if "for_clause" not in g:
+        chk.fail("R2.8", "brush_parser::parser::peg", "for_clause-missing", "grammar rule for_clause not found", nontrivial=False)
+        return
+    alts = peg.split_alternatives(g["for_clause"]) if hasattr(peg, "split_alternatives") else [g["for_clause"]]
+    seen_in = seen_noin = 0
+    for alt in alts:
+        text = " ".join(t.text for t in alt)
+        has_in = re.search(r"\b_in \( \)", text) is not None
+        m = re.search(r"values : ([^,}]*)", text) or re.search(r"values ([,}])", text)
+        val = m.group(1).strip() if m else "?"
+        if has_in:
+            seen_in += 1
+            if val.startswith("Some"):
+                chk.ok("R2.8", "in-clause-yields-some", "values: %s" % val[:40], function="for_clause")
+            else:
+                chk.fail("R2.8", "brush_parser::parser::peg::for_clause", "empty-in-list-means-positional-parameters",
+                         "the for_clause alternative with an `in` clause builds `values: %s`: an empty word list becomes None, which the executor treats as "
+                         "\"iterate over the positional parameters\" — `set -- a b; for x in; do echo $x; done` prints a and b (bash: nothing)" % val[:40])
+        else:
+            seen_noin += 1
+            if val.startswith("None"):
+                chk.ok("R2.8", "no-in-clause-yields-none", "values: None", function="for_clause")
+            else:
+                chk.fail("R2.8", "brush_parser::parser::peg::for_clause", "missing-in-clause-not-none", "the alternative without `in` builds `values: %s`" % val[:40])
+    if not (seen_in and seen_noin):
+        chk.fail("R2.8", "brush_parser::parser::peg::for_clause", "for_clause-alternatives", "expected one alternative with and one without `in` (found %d / %d)" % (seen_in, seen_noin), nontrivial=False)
